@@ -75,6 +75,9 @@ let answer (s : snode list) (t : dnode list) (q : string) : string =
         match path_of t (List.map nat_of_int p) with Some b -> hex b | None -> "?") ps)
   end else if String.length q >= 2 && q.[0] = 'W' then
     "W:" ^ b01 (swf s) ^ b01 (dwf s t) ^ b01 (quotes_ok t)
+  else if String.length q >= 2 && q.[0] = 'Q' then
+    (* is the input the example of Properties_C15_pathmodel.v (PathModelP.ex_S_c, ex_t_c)? *)
+    "Q:" ^ b01 (s = ex_S_c && t = ex_t_c)
   else begin
     let parts = String.split_on_char ':' q in
     match parts with
